@@ -3,6 +3,7 @@
 package checks
 
 import (
+	"strings"
 	"context"
 	"fmt"
 	"sync"
@@ -85,6 +86,7 @@ func TestC17Batches(t *testing.T) {
 		// the failing calls answer with a generic error or with the API status error typical for the verb
 		// (AlreadyExists for a creation whose generated name collided, TooManyRequests for a deletion)
 		rejectKind := rapid.SampledFrom([]sim.FaultKind{sim.FaultReject, sim.FaultRejectTyped}).Draw(rt, "errorClass")
+		concurrentWrite := strings.HasPrefix(kind, "reconcile-") && kind != "reconcile-canary-cleanup" && rapid.IntRange(0, 3).Draw(rt, "concurrentWriteToTheReplicaSet") == 0
 		c.Faults = func(call *sim.Call) sim.FaultKind {
 			if call.Kind != "Pod" || (call.Verb != "create" && call.Verb != "delete") {
 				return sim.FaultNone
@@ -96,7 +98,18 @@ func TestC17Batches(t *testing.T) {
 			if failNode[node] {
 				mu.Lock()
 				injected++
+				first := injected == 1
 				mu.Unlock()
+				if first && concurrentWrite {
+					// somebody else writes to the replica set while its sync is under way: the status write at the end
+					// of the sync will conflict, and the sync must then report an error rather than nothing
+					c.MutateERS("ns1", rs.Name, func(x *edsv1.ExtendedDaemonSetReplicaSet) {
+						if x.Labels == nil {
+							x.Labels = map[string]string{}
+						}
+						x.Labels["touched-by"] = "someone-else"
+					})
+				}
 				return rejectKind
 			}
 			return sim.FaultNone
@@ -149,8 +162,9 @@ func TestC17Batches(t *testing.T) {
 			r := c.Reconcile(sim.ActorERS, "ns1", rs.Name)
 			post := c.ERS("ns1", rs.Name)
 			got := oracle.RSCondTrue(&post.Status, edsv1.ConditionTypeReconcileError)
-			if got != (injected > 0) {
-				fail("C17/conditions/ReconcileError", fmt.Sprintf("%d pod creations failed in the sync (err=%v) but ReconcileError=%v", injected, r.Err, got))
+			// with a concurrent write the status (and the condition in it) cannot be stored: the sync must return an error
+			if reported := got || (concurrentWrite && r.Err != nil); reported != (injected > 0) {
+				fail("C17/conditions/ReconcileError", fmt.Sprintf("%d pod creations failed in the sync (err=%v, concurrent write=%v) but ReconcileError=%v", injected, r.Err, concurrentWrite, got))
 			}
 		case "reconcile-mixed":
 			// one sync that both deletes outdated pods (even nodes) and creates missing ones (odd nodes); the failing
@@ -180,7 +194,7 @@ func TestC17Batches(t *testing.T) {
 					}
 				}
 			}
-			if got != (dels+crs > 0) {
+			if reported := got || (concurrentWrite && r.Err != nil); reported != (dels+crs > 0) {
 				which := "deletions"
 				if dels == 0 {
 					which = "creations"
@@ -233,14 +247,14 @@ func TestC17Batches(t *testing.T) {
 				})
 			}
 			c.Advance(time.Minute)
-			c.Reconcile(sim.ActorERS, "ns1", rs.Name)
+			rcl := c.Reconcile(sim.ActorERS, "ns1", rs.Name)
 			post := c.ERS("ns1", rs.Name)
 			// the statement says "ReconcileError or PodsCleanupDone": either condition may carry the failure
 			cd := oracle.RSCond(&post.Status, edsv1.ConditionTypePodsCleanupDone)
 			cleanupFalse := cd != nil && cd.Status == corev1.ConditionFalse
 			recErr := oracle.RSCondTrue(&post.Status, edsv1.ConditionTypeReconcileError)
-			if injected > 0 && !cleanupFalse && !recErr {
-				fail("C17/conditions/cleanup-failure-not-reflected", fmt.Sprintf("%d clean-up deletions failed but neither ReconcileError is True nor PodsCleanupDone False", injected))
+			if injected > 0 && !cleanupFalse && !recErr && !(concurrentWrite && rcl.Err != nil) {
+				fail("C17/conditions/cleanup-failure-not-reflected", fmt.Sprintf("%d clean-up deletions failed but neither ReconcileError is True nor PodsCleanupDone False (sync err=%v)", injected, rcl.Err))
 			}
 			if injected == 0 && (cleanupFalse || recErr) {
 				fail("C17/conditions/failure-reported-without-failure", fmt.Sprintf("no deletion failed but ReconcileError=%v PodsCleanupDone=%v", recErr, cd))
